@@ -204,6 +204,11 @@ fn inc(k: &KeyDef, d: u64, reps: u32, hoist: bool) {
     }
 }
 
+/// `reps` observations of `v` through the batched API Histogram::record_many
+fn record_many(k: &KeyDef, v: f64, reps: u32) {
+    metrics::histogram!(k.name.clone(), &k.labels).record_many(v, reps as usize);
+}
+
 fn record(k: &KeyDef, v: f64, reps: u32, hoist: bool) {
     if hoist {
         let h = metrics::histogram!(k.name.clone(), &k.labels);
@@ -228,7 +233,7 @@ fn set(k: &KeyDef, v: i64) {
 enum Op {
     Inc { k: usize, d: u64, reps: u32, hoist: bool },
     /// `reps` samples of value `v`, which belongs to value class `c`
-    Rec { k: usize, c: usize, v: f64, reps: u32, hoist: bool },
+    Rec { k: usize, c: usize, v: f64, reps: u32, hoist: bool, many: bool },
     Set { k: usize, v: i64 },
     Desc { k: usize, unit: usize },
 }
@@ -248,6 +253,9 @@ struct Plan {
     scripts: Vec<Vec<Op>>,
     pace: u32,
     max_readouts: u32,
+    /// idle counters registered before the run (never incremented): they make the reader's walk
+    /// over the registry long
+    filler: u32,
 }
 
 fn plan(seed: u64) -> Plan {
@@ -331,7 +339,7 @@ fn plan(seed: u64) -> Plan {
                 }
                 // many samples of one value within one readout interval (value x count crosses 2^32)
                 let reps = if r.random_bool(0.3) { r.random_range(4000..=7000) } else { r.random_range(1..=500) };
-                Op::Rec { k, c, v, reps, hoist }
+                Op::Rec { k, c, v, reps, hoist, many: r.random_bool(0.3) }
             } else {
                 gv += 1;
                 // values are unique per call, except that thread 0 sometimes sets a gauge back to 0.0
@@ -343,6 +351,20 @@ fn plan(seed: u64) -> Plan {
         }
         scripts.push(s);
     }
+    // new metrics introduced while the run is going on: a fresh counter name is described, then
+    // registered and incremented for the first time, somewhere in the middle of a thread's script
+    let emit_zero = r.random_bool(0.4);
+    let mut fresh = 0;
+    for t in 0..threads {
+        for _ in 0..r.random_range(2..=5) {
+            fresh += 1;
+            keys.push(KeyDef { kind: 'c', name: format!("fresh.counter_{fresh}"), labels: if r.random_bool(0.5) { vec![] } else { vec![("op".into(), "new".into())] } });
+            let k = keys.len() - 1;
+            let at = r.random_range(0..=scripts[t].len());
+            scripts[t].insert(at, Op::Inc { k, d: 1, reps: r.random_range(1..=50), hoist: false });
+            scripts[t].insert(at, Op::Desc { k, unit: r.random_range(0..UNITS.len()) });
+        }
+    }
     // descriptions while the name is in use: somewhere in the middle of some thread's script
     for (k, u) in later {
         let t = r.random_range(0..threads);
@@ -350,7 +372,9 @@ fn plan(seed: u64) -> Plan {
         scripts[t].insert(at, Op::Desc { k, unit: u });
     }
     Plan {
-        emit_zero: r.random_bool(0.4),
+        emit_zero,
+        // (zero-valued fillers would be listed in every readout with emit_zero_counters)
+        filler: if emit_zero { 0 } else { *[0u32, 500, 3000, 10_000].choose(&mut r).unwrap() },
         keys,
         before,
         scripts,
@@ -367,6 +391,9 @@ fn run_one(run: u64, seed: u64) -> (Vec<J>, J) {
     trace::ev(json!({"ev": "Reset", "run": run, "emit_zero": p.emit_zero,
                      "classes": CLASSES.iter().map(|(v, u)| json!([v / u, u])).collect::<Vec<_>>(), "keys": keys.iter().map(|k| k.json()).collect::<Vec<_>>()}));
     metrics::with_local_recorder(&rec, || {
+        for i in 0..p.filler {
+            let _ = metrics::counter!(format!("idle.filler_{i}"));
+        }
         for (k, u) in &p.before {
             let kd = &keys[*k];
             trace::ev(json!({"ev": "DescStart", "name": kd.name, "unit": UNITS[*u].1}));
@@ -409,9 +436,13 @@ fn run_one(run: u64, seed: u64) -> (Vec<J>, J) {
                                 inc(&keys[*k], *d, *reps, *hoist);
                                 trace::ev(json!({"ev": "IncEnd", "t": t, "k": k + 1, "n": n}));
                             }
-                            Op::Rec { k, c, v, reps, hoist } => {
+                            Op::Rec { k, c, v, reps, hoist, many } => {
                                 trace::ev(json!({"ev": "RecStart", "t": t, "k": k + 1, "c": c + 1, "v": format!("{v:e}"), "n": reps}));
-                                record(&keys[*k], *v, *reps, *hoist);
+                                if *many {
+                                    record_many(&keys[*k], *v, *reps);
+                                } else {
+                                    record(&keys[*k], *v, *reps, *hoist);
+                                }
                                 trace::ev(json!({"ev": "RecEnd", "t": t, "k": k + 1, "c": c + 1, "v": format!("{v:e}"), "n": reps}));
                             }
                             Op::Set { k, v } => {
@@ -471,7 +502,7 @@ fn run_one(run: u64, seed: u64) -> (Vec<J>, J) {
     readout(&rec, true);
     let events = trace::take();
     let meta = json!({"run": run, "seed": seed, "threads": nthreads, "keys": p.keys.len(), "emit_zero": p.emit_zero,
-                      "updates": total_updates, "concurrent_readouts": concurrent_readouts, "pace": p.pace,
+                      "updates": total_updates, "concurrent_readouts": concurrent_readouts, "pace": p.pace, "filler": p.filler,
                       "events": events.len(), "panicked": panicked.load(Ordering::SeqCst)});
     (events, meta)
 }
@@ -574,7 +605,12 @@ fn cmd_seq(a: &HashMap<String, String>) {
                                         "vhuge" => 1e12,
                                         sym => panic!("tool: unknown value symbol {sym}"),
                                     };
-                                    record(k, v, st[4].as_u64().unwrap_or(1) as u32, id % 2 == 0)
+                                    let cnt = st[4].as_u64().unwrap_or(1) as u32;
+                                    if st[5].as_str() == Some("many") {
+                                        record_many(k, v, cnt)
+                                    } else {
+                                        record(k, v, cnt, id % 2 == 0)
+                                    }
                                 }
                             }
                         }
